@@ -53,30 +53,46 @@ def run(ctx, at_dispatch):
 def run_reducers(ctx):
     """executor-level scoping: job_reducers change the pickling of that executor's tasks, result_reducers of its results
     (defaulting to the job reducers), nothing else.  Expected values follow Pickling.tla's overlay rule."""
-    combos = [(None, None), ("a", None), ("a", "b"), (None, "b")]
+    combos = [(None, None), ("a", None), ("a", "b"), (None, "b"), ("a", "empty"), ("empty", "b"), ("empty", None)]
+    val = lambda x: None if x in (None, "empty") else x
     cases = []
-    for k, (j, r) in enumerate(combos * 3):
-        u1 = [["submit", 1, "tagged"], ["submit", 2, "tagged"], ["wait_all"], ["shutdown", True, False]]
-        scn = dict(exec=dict(kind="plain", max_workers=2, timeout=None, job_reducers=j, result_reducers=r), users={"u1": u1}, fam="reducers")
-        cases.append(dict(i=k, scn=scn, policy=dict(kind="prio", tp=0.0, change=0.05), seed=ctx.seed * 17 + k, keep_decisions=False,
-                          expect=dict(seen=j or "plain", back=(r or j) or "plain")))
+    for kind in ("plain", "reusable"):
+        for rep in range(2):
+            for (j, r) in combos:
+                u1 = [["submit", 1, "tagged"], ["submit", 2, "tagged"], ["wait_all"], ["shutdown", True, False]]
+                scn = dict(exec=dict(kind=kind, max_workers=2, timeout=None, job_reducers=j, result_reducers=r), users={"u1": u1}, fam="reducers")
+                back = val(r) if r is not None else val(j)
+                cases.append(dict(i=len(cases), scn=scn, policy=dict(kind="prio", tp=0.0, change=0.05), seed=ctx.seed * 17 + len(cases), keep_decisions=False,
+                                  expect={1: dict(seen=val(j) or "plain", back=back or "plain"), 2: dict(seen=val(j) or "plain", back=back or "plain")}))
+    # a sequence on the singleton: the same job reducers, then "results are not customised any more"
+    for (j, r1, r2) in [("a", None, "empty"), ("a", "b", None), ("a", "empty", "b"), ("a", None, "b")]:
+        u1 = [["submit", 1, "tagged"], ["wait_all"], ["reuse", 2, {"job_reducers": j, "result_reducers": r2} if r2 is not None else {"job_reducers": j}],
+              ["submit", 2, "tagged"], ["wait_all"], ["shutdown", True, False]]
+        scn = dict(exec=dict(kind="reusable", max_workers=2, timeout=None, job_reducers=j, result_reducers=r1), users={"u1": u1}, fam="reducers")
+        b1 = (val(r1) if r1 is not None else val(j)) or "plain"
+        b2 = (val(r2) if r2 is not None else val(j)) or "plain"
+        cases.append(dict(i=len(cases), scn=scn, policy=dict(kind="prio", tp=0.0, change=0.05), seed=ctx.seed * 17 + len(cases), keep_decisions=False,
+                          expect={1: dict(seen=j, back=b1), 2: dict(seen=j, back=b2)}))
     outs = exec_common.run_sim(ctx, cases, "rd", nshards=4)
     for c, o in zip(cases, outs):
         ctx.case(key="reducers:%s:%d" % (json.dumps(c["scn"]["exec"]), c["seed"]))
         bad = None
         n = 0
         for e in o["trace"]:
+            if e["ev"] == "call_exc":
+                bad = "get_reusable_executor raised %s: %s" % (e.get("type"), e.get("what"))
             if e["ev"] == "resolve":
                 n += 1
                 v = e.get("value", "")
-                want = "['tagged', %d, '%s', '%s']" % (e["t"], c["expect"]["seen"], c["expect"]["back"])
+                want = "['tagged', %d, '%s', '%s']" % (e["t"], c["expect"][e["t"]]["seen"], c["expect"][e["t"]]["back"])
                 if e.get("outcome") != "result" or v != want:
                     bad = "task %s: observed %s (%s), expected %s" % (e["t"], v, e.get("type"), want)
         if n != 2 and not bad:
             bad = "only %d of 2 tasks resolved" % n
         if bad:
-            ctx.violation("C15 executor with job_reducers=%s result_reducers=%s: %s  ([.., seen by the worker, seen by the parent])" % (
-                c["scn"]["exec"]["job_reducers"], c["scn"]["exec"]["result_reducers"], bad),
+            ctx.violation("C15 %s executor with job_reducers=%s result_reducers=%s (history %s): %s  ([.., seen by the worker, seen by the parent])" % (
+                c["scn"]["exec"]["kind"], c["scn"]["exec"]["job_reducers"], c["scn"]["exec"]["result_reducers"],
+                [op for op in c["scn"]["users"]["u1"] if op[0] == "reuse"], bad),
                 dict(engine="E-SIM", case=c, why=bad, how="python -m engine.sim.harness"), signature=dict(kind="executor_reducers"))
         else:
             ctx.traces_validated += 1
